@@ -188,34 +188,7 @@ impl TableProvider {
     }
 
     pub fn candidates_of(&self, pkg: usize) -> Option<Candidates> {
-        let p = &self.u.packages[pkg];
-        if p.missing {
-            return None;
-        }
-        Some(Candidates {
-            candidates: p.cands.iter().map(|c| SolvableId(c.sid)).collect(),
-            favored: p.favored.map(|i| SolvableId(p.cands[i].sid)),
-            locked: if p.lock_gone {
-                p.unlisted.last().map(|c| SolvableId(c.sid))
-            } else {
-                p.locked.map(|i| SolvableId(p.cands[i].sid))
-            },
-            hint_dependencies_available: match &p.hint {
-                Hint::None => HintDependenciesAvailable::None,
-                Hint::All => HintDependenciesAvailable::All,
-                Hint::Some(v) => HintDependenciesAvailable::Some(
-                    v.iter().map(|&i| SolvableId(p.cands[i].sid)).collect(),
-                ),
-            },
-            excluded: p
-                .cands
-                .iter()
-                .filter_map(|c| {
-                    c.excluded
-                        .map(|e| (SolvableId(c.sid), StringId(self.u.strings[e].id)))
-                })
-                .collect(),
-        })
+        candidates_answer(&self.u, pkg)
     }
 
     async fn gate(&self, kind: ReqKind, key: u32) {
@@ -386,13 +359,7 @@ impl DependencyProvider for TableProvider {
                     .borrow()
                     .iter()
                     .any(|c| matches!(c, Call::GetCandidates(n) if *n == pk.name_id));
-                let hinted = r.listed
-                    && pkg_fetched
-                    && match &pk.hint {
-                        Hint::None => false,
-                        Hint::All => true,
-                        Hint::Some(v) => v.contains(&r.idx),
-                    };
+                let hinted = pkg_fetched && pk.hints(r.listed, r.idx);
                 let fetched = self
                     .log
                     .borrow()
@@ -492,3 +459,41 @@ impl DependencyProvider for TableProvider {
         None
     }
 }
+
+/// The answer of the table provider to `get_candidates` (shared with the C++ side of C17).
+pub fn candidates_answer(u: &Universe, pkg: usize) -> Option<Candidates> {
+    let p = &u.packages[pkg];
+    if p.missing {
+        return None;
+    }
+    Some(Candidates {
+        candidates: p.cands.iter().map(|c| SolvableId(c.sid)).collect(),
+        favored: p.favored.map(|i| SolvableId(p.cands[i].sid)),
+        locked: if p.lock_gone {
+            p.unlisted.last().map(|c| SolvableId(c.sid))
+        } else {
+            p.locked.map(|i| SolvableId(p.cands[i].sid))
+        },
+        hint_dependencies_available: match &p.hint {
+            Hint::None => HintDependenciesAvailable::None,
+            Hint::All => HintDependenciesAvailable::All,
+            Hint::Some(v) => HintDependenciesAvailable::Some(
+                v.iter()
+                    .map(|&i| SolvableId(p.cands[i].sid))
+                    .chain(p.unlisted.iter().filter(|_| p.hint_unlisted).map(|c| SolvableId(c.sid)))
+                    .collect(),
+            ),
+        },
+        // an exclusion may name a solvable the package does not list (any more)
+        excluded: p
+            .cands
+            .iter()
+            .chain(p.unlisted.iter())
+            .filter_map(|c| {
+                c.excluded
+                    .map(|e| (SolvableId(c.sid), StringId(u.strings[e].id)))
+            })
+            .collect(),
+    })
+}
+
